@@ -313,9 +313,49 @@ def inline_helpers(repo, func, depth=2, keep=RULE_ANCHORS):
       ast.fix_missing_locations(o)
     return out
 
+  def inlinable(call):
+    g = callee_of(call)
+    return g is not None and g.name not in keep and g.node is not base.node \
+        and not call.keywords and simple(g) is not None and \
+        not any(isinstance(x, ast.Starred) for x in call.args)
+
+  def hoist(stmt):
+    """[temp = helper(...), ..., stmt'] with helper calls nested in the
+    expressions of a simple statement pulled out (innermost first)"""
+    pre = []
+    if not isinstance(stmt, (ast.Assign, ast.AugAssign, ast.Return, ast.Expr)):
+      return [stmt]
+    top = stmt.value if hasattr(stmt, 'value') else None
+    for _ in range(6):
+      found = None
+      for n in ast.walk(stmt):
+        if isinstance(n, ast.Call) and n is not top and inlinable(n) and \
+                not any(isinstance(m, ast.Call) and m is not n and
+                        inlinable(m) for m in ast.walk(n)):
+          found = n
+          break
+      if found is None:
+        break
+      counter[0] += 1
+      nm = '_inl%d' % counter[0]
+      pre.append(ast.copy_location(
+          ast.Assign(targets=[ast.Name(id=nm, ctx=ast.Store())],
+                     value=found), found))
+
+      class Rp(ast.NodeTransformer):
+        def visit_Call(self, node):
+          if node is found:
+            return ast.copy_location(ast.Name(id=nm, ctx=ast.Load()), node)
+          return self.generic_visit(node)
+      Rp().visit(stmt)
+    for p_ in pre:
+      ast.fix_missing_locations(p_)
+    return pre + [stmt]
+
   class I(ast.NodeTransformer):
     def block(self, body):
       res = []
+      body = [x for s0 in body for x in hoist(s0)]
       for s in body:
         s = self.visit(s)
         rep_ = None
